@@ -31,6 +31,9 @@ type specEnv struct {
 	oldEnv *specEnv
 	hdrEnv *specEnv
 	witFr  *Frame // frame whose loop variables serve as existential witness hints (survives macro expansion)
+	atInside bool // `at` denotes a point inside the block (after its phis and earlier instructions), not its start
+	lastQFacts []Term // heap typing facts about the terms of the most recent quantifier body
+	hints  bool   // the clause is being evaluated as a goal to prove (existential witness hints are added); assumptions stay plain
 }
 
 func basicType(k types.BasicKind) types.Type { return types.Typ[k] }
@@ -199,14 +202,17 @@ func (fr *Frame) lookupLocal(name string, at *ssa.BasicBlock, st *State) (SVal, 
 						continue
 					}
 					if obj := x.Object(); obj != nil {
-						if _, isVar := obj.(*types.Var); !isVar {
+						tv, isVar := obj.(*types.Var)
+						if !isVar || tv.IsField() {
 							continue
 						}
 					}
 					db := defBlock(x.X)
 					if db == at {
 						if _, isPhi := x.X.(*ssa.Phi); !isPhi {
-							continue // defined inside the header block after the phis: not available at its start
+							if _, done := fr.vals[x.X]; !done || !fr.atInside {
+								continue // defined inside the block after the phis: not available at its start
+							}
 						}
 					}
 					if !db.Dominates(at) {
@@ -678,6 +684,13 @@ func (e *specEnv) call(n *ast.CallExpr) (SVal, error) {
 		oe.st = e.old
 		if e.oldEnv != nil {
 			oe = e.oldEnv.child()
+			oe.hints = e.hints
+			if oe.witFr == nil {
+				oe.witFr = e.witFr
+				if oe.witFr == nil {
+					oe.witFr = e.fr
+				}
+			}
 			for k, v := range e.vars {
 				if _, ok := oe.vars[k]; !ok {
 					oe.vars[k] = v
@@ -785,6 +798,14 @@ func (e *specEnv) call(n *ast.CallExpr) (SVal, error) {
 		}
 		rng := And(Le(lo, bv), Lt(bv, hi))
 		if name == "forall" {
+			// well-typedness of the heap cells read under the binder: a side condition when proving, an extra fact when assuming
+			if len(ce.lastQFacts) > 0 {
+				if e.hints {
+					body = Implies(And(ce.lastQFacts...), body)
+				} else {
+					body = And(append([]Term{body}, ce.lastQFacts...)...)
+				}
+			}
 			return sv(Term{fmt.Sprintf("(forall ((%s Int)) %s)", bv.S, Implies(rng, body).S), SBool}, boolT), nil
 		}
 		ex := Term{fmt.Sprintf("(exists ((%s Int)) %s)", bv.S, And(rng, body).S), SBool}
@@ -1293,11 +1314,24 @@ func exprString(x ast.Expr) string {
 
 // evalQuantBody evaluates a quantifier body: nothing mentioning the bound variable may leak into the context.
 func (e *specEnv) evalQuantBody(x ast.Expr) (t Term, err error) {
-	e.fx.ctx.quant++
+	c := e.fx.ctx
+	c.quant++
+	c.qfacts = append(c.qfacts, nil)
 	defer func() {
-		e.fx.ctx.quant--
+		c.quant--
+		facts := c.qfacts[len(c.qfacts)-1]
+		c.qfacts = c.qfacts[:len(c.qfacts)-1]
 		if r := recover(); r != nil {
 			err = fmt.Errorf("quantifier body: %v", r)
+			return
+		}
+		e.lastQFacts = nil
+		seen := map[string]bool{}
+		for _, f := range facts {
+			if !seen[f] {
+				seen[f] = true
+				e.lastQFacts = append(e.lastQFacts, Term{f, SBool})
+			}
 		}
 	}()
 	return e.evalBool(x)
@@ -1310,7 +1344,7 @@ func (e *specEnv) witnessCandidates() []Term {
 	if wf == nil {
 		wf = e.witFr
 	}
-	if wf == nil || e.fx.ctx.quant > 0 {
+	if wf == nil || e.fx.ctx.quant > 0 || !e.hints {
 		return nil
 	}
 	var out []Term
@@ -1332,4 +1366,20 @@ func (e *specEnv) witnessCandidates() []Term {
 		}
 	}
 	return out
+}
+
+
+// evalGoal evaluates a clause that is about to be proved (witness hints enabled).
+func (e *specEnv) evalGoal(x ast.Expr) (Term, error) {
+	e.hints = true
+	if e.oldEnv != nil {
+		e.oldEnv.hints = true
+	}
+	defer func() {
+		e.hints = false
+		if e.oldEnv != nil {
+			e.oldEnv.hints = false
+		}
+	}()
+	return e.evalBool(x)
 }
